@@ -1,10 +1,11 @@
 #!/bin/sh
-# every seeded change against the quick check of its property (C03_b: against C19, see DESIGN §5)
+# every seeded change against the quick check of its property (C03_b, C03_g: against C19, see DESIGN §5)
 cd /verif
 : > .cache/logs/seeds_summary.txt
-for d in $(ls seeded | grep -E '^C[0-9][0-9](_[a-f])?$'); do
+for d in $(ls seeded | grep -E '^C[0-9][0-9](_[a-g])?$'); do
   p=$(echo $d | cut -c1-3)
   [ "$d" = "C03_b" ] && p=C19
+  [ "$d" = "C03_g" ] && p=C19
   sh tools/run_seed.sh $d $p > /tmp/seedrun_out.txt 2>&1
   head -3 /tmp/seedrun_out.txt | cut -c1-240 >> .cache/logs/seeds_summary.txt
   cp /tmp/seedrun_${d}_$p.log .cache/logs/ 2>/dev/null
